@@ -96,13 +96,13 @@ package ice
 //@
 //@ func (*Segment).dictionary
 //@   safety[C08,C18,C19] nil idx slice map
-//@   ensures[C08,C18,C19] @reader_has_fst err == nil && rv != nil && rv.fstReader != nil ==> rfst(rv.fstReader) != nil
 //@   requires[C08,C18] s != nil
 //@   ensures[C08,C18] err == nil && s.fieldsMap[field] == 0 ==> rv == nil
 //@   ensures[C08,C18] err == nil && s.fieldsMap[field] > 0 ==> rv != nil && rv.sb == s && rv.fieldID == s.fieldsMap[field] - 1
 //@   ensures[C08,C18,C19] err != nil ==> rv == nil
 //@   ensures[C08,C18] err == nil && rv != nil ==> rv.sb == s
 //@   ensures[C08] err == nil && rv != nil && s.dictLocs[rv.fieldID] == 0 ==> rv.fst == nil && rv.fstReader == nil
+//@   ensures[C08,C18,C19] @reader_has_fst err == nil && rv != nil && rv.fstReader != nil ==> rfst(rv.fstReader) != nil
 //@
 //@ func (*Segment).Dictionary
 //@   safety[C08] nil
@@ -112,7 +112,7 @@ package ice
 //@ func (*Dictionary).postingsListInit
 //@   safety[C08,C13,C18] nil
 //@   requires[C08,C13,C18] d != nil
-//@   ensures[C08,C13,C18] result0 != nil && result0 != emptyPostingsList
+//@   ensures[C08,C09,C13,C15,C18] @never_the_shared_sentinel result0 != nil && result0 != emptyPostingsList
 //@   ensures[C13] result0.sb == d.sb && result0.except == except && result0.postingsOffset == 0 && result0.freqOffset == 0 && result0.locOffset == 0
 //@   ensures[C13] result0.docNum1Hit == 0 && result0.normBits1Hit == 0 && result0.chunkSize == 0
 //@   ensures[C08,C13,C18] result0.postings != nil ==> bset(result0.postings) == emptyset()
@@ -625,8 +625,7 @@ package ice
 //@ // segment; writing one of them is both a data race and a change of what other
 //@ // readers observe. Every function that fills a list or iterator is under contract
 //@ // never to receive the sentinel.
-//@ func (*Dictionary).postingsListInit
-//@   ensures[C09,C15] @never_the_shared_sentinel result0 != emptyPostingsList
+//@ // ((*Dictionary).postingsListInit: post never_the_shared_sentinel above)
 //@ func (*PostingsList).read
 //@   requires[C09,C15] p != emptyPostingsList
 //@ func (*PostingsList).init1Hit
